@@ -130,6 +130,8 @@ zix_expand_environment_strings(ZixAllocator* const allocator,
     const char* const tail     = string + start;
     const size_t      tail_len = strlen(tail);
     out = append_str(allocator, &len, out, tail_len, tail);
+  } else if (!out) {
+    out = append_str(allocator, &len, out, 0U, ""); // Empty input
   }
 
   return out;
